@@ -3,6 +3,7 @@ package props
 import (
 	"bytes"
 	"fmt"
+	"time"
 
 	"verif/mc"
 	"verif/ref"
@@ -93,6 +94,11 @@ func enumItemsCfg(c *mc.Ctx, items []ref.Item, cfgs func(*ref.T) []ref.Cfg, f fu
 
 func c01Case(c *mc.Ctx, cfg ref.Cfg, it ref.Item, v ref.V, vs string, undoc string) {
 	c.Dim("pos:" + it.Pos)
+	if it.Pos == "intern-history" {
+		// one decode of n distinct interned values copies the table n times (measured: 5 s for 2^13,
+		// 22 s for 2^14 values, more CPU than that with the collector's threads)
+		c.Allow(5 * time.Minute)
+	}
 	c.Dim("cfg:" + cfg.String())
 	pre := fmt.Sprintf("%s|%s|%s|%s", cfg, it.Pos, it.T, undoc)
 	c.Guard(pre, func() {
